@@ -33,6 +33,7 @@ SENS = [  # cfg suffix, Dev, invariant that must be violated
     ("PreferIndexHtm", "PreferIndexHtm", "RedirectIndex"),
     ("NoRedirect", "NoRedirect", "RedirectIndex"),
     ("StripByBytes", "StripByBytes", "PrefixRule"),
+    ("PreferIndexHtm_judge", "PreferIndexHtm", "ModelJudged"),   # the policy-free judge (StaticFs 3e) is not vacuous either
 ]
 
 
@@ -76,11 +77,16 @@ def kinds(vectors):
             for e in v[fam]:
                 key = fam + ":" + e[0] + ("+" + e[3] if len(e) > 3 else "")
                 h[key] = h.get(key, 0) + 1
+        for fam in ("jd", "jf"):
+            for e in v.get(fam, []):
+                key = fam + ":" + e[0]
+                h[key] = h.get(key, 0) + 1
     return h
 
 
 # vacuity guard on the generated expectations: every kind of answer the property distinguishes must occur
-NEEDED_KINDS = ["d:f", "d:r", "d:n", "d:x", "d:x+f", "d:x+r", "f:f", "f:n", "f:x", "f:x+f"]
+NEEDED_KINDS = ["d:f", "d:r", "d:n", "d:x", "d:x+f", "d:x+r", "f:f", "f:n", "f:x", "f:x+f",
+                "jd:f", "jd:r", "jd:n", "jd:-", "jf:f", "jf:-"]          # jd / jf: what the statement itself demands
 
 
 def nontrivial_paths(vectors, cat, seen):
@@ -103,14 +109,22 @@ def account(ctx, s, label, cfg):
     part["nontrivial_paths"] += s["nontrivial"]
     part["mismatches"] += s["mismatches"]
     part["canary_hits"] += s["canary_hits"]
+    part["strict_reading_drifts"] = part.get("strict_reading_drifts", 0) + s.get("drifts", 0)
+    if s.get("drifts"):
+        d = s["first_drift"][0]
+        ctx.drift("strict reading of C06 (StaticFs Expect*/Conforms)",
+                  "%d handler answers (%s) meet the statement of the property but differ from the strict reading (status of a refusal, Location "
+                  "spelling, media-type alias, treatment of paths the statement leaves open); first: %s %s on %r: strict %s got %s" % (
+                      s["drifts"], label, d["handler"], d["route"], d["uri"], json.dumps(d["strict_expectation"]), json.dumps(d["got"])),
+                  {"kind": "staticfs-drift", "cfg": cfg, "first": s["first_drift"]})
     if s["mismatches"]:
         by_dev = {}
         for m in s["first"]:
             by_dev.setdefault(m.get("dev") or None, []).append(m)
         for dev, ms in by_dev.items():
             m = ms[0]
-            what = "%d handler answers outside what the property admits (%s); first: %s %s on %r in world %d: expected %s got %s%s" % (
-                s["mismatches"], label, m["handler"], m["route"], m["uri"], m["world"], json.dumps(m["expected"]),
+            what = "%d handler answers outside what the property admits (%s); first: %s %s on %r in world %d: the statement demands %s (strict reading %s) got %s%s" % (
+                s["mismatches"], label, m["handler"], m["route"], m["uri"], m["world"], json.dumps(m.get("demanded")), json.dumps(m["expected"]),
                 json.dumps(m["got"]), (" [= deviation %s]" % dev) if dev else "")
             ctx.violation(what, {"kind": "staticfs-vectors", "cfg": cfg, "mismatches": ms}, dev=dev)
 
@@ -200,7 +214,7 @@ def _run(ctx, thorough, binpath, tokio_bin, scratch, replay):
         if i == 0:
             ctx.require_cover(cfg, r, ACTIONS)
     for suffix, dev, inv in SENS:
-        if not thorough and suffix in ("DecodeTwice_pos", "GuardPrefixOnly_sound"):
+        if not thorough and suffix in ("DecodeTwice_pos", "GuardPrefixOnly_sound", "PreferIndexHtm_judge"):
             continue                                          # second witness of the same deviation: thorough only
         r = run_tlc("MC_StaticFs.tla", "MC_StaticFs_dev_%s.cfg" % suffix, D, workers=2, timeout=600, work_id="c06")
         ctx.add_tlc("sensitivity: Dev={%s} must violate %s" % (dev, inv), r)
@@ -210,7 +224,7 @@ def _run(ctx, thorough, binpath, tokio_bin, scratch, replay):
     # (the deviations that only the world of names refutes are run in the thorough tier)
     sweep_devs = []
     if thorough:
-        sweep_devs = [("HexLowerOnly", "SweepPositive"), ("JoinAbsolute", "SweepConfined"), ("StripAllPrefix", "SweepPrefix"),
+        sweep_devs = [("HexLowerOnly_judge", "SweepJudged"), ("ExtFirstDot_judge", "SweepJudged"), ("StripAllDirectory", "SweepPrefix"), ("HexLowerOnly", "SweepPositive"), ("JoinAbsolute", "SweepConfined"), ("StripAllPrefix", "SweepPrefix"),
                       ("ExtFirstDot", "SweepPositive"), ("TrimNames", "SweepPositive")]
     for dev, inv in sweep_devs:
         r = run_tlc("MC_StaticFs.tla", "Sweep_StaticFs_dev_%s.cfg" % dev, D, workers=2, timeout=600, work_id="c06")
@@ -272,7 +286,7 @@ def _run(ctx, thorough, binpath, tokio_bin, scratch, replay):
     else:
         sheader = [x for x in g.prints if isinstance(x, dict) and ("world" in x or "routes" in x)]
         svec = [x for x in g.prints if isinstance(x, dict) and "r" in x]
-        if len(sheader) != 2 or len(svec) < 1500:
+        if len(sheader) != 2 or len(svec) < 2500:
             raise vlib.ToolError("sweep generation incomplete: %d header lines, %d vectors" % (len(sheader), len(svec)))
         nontrivial_paths(svec, cat, seen)
         ctx.add_part("expectations sweep", **kinds(svec))
@@ -285,11 +299,12 @@ def _run(ctx, thorough, binpath, tokio_bin, scratch, replay):
     ctx.cov["distinct_nontrivial"] = len(seen)
 
     # ---- 4a. binding self-test: a corrupted expectation must be rejected ------------------------------------
-    served = [v for v in first_vectors if v["d"][0][0] == "f" and len(v["d"][0]) == 3][:1]
+    served = [v for v in first_vectors if v["d"][0][0] == "f" and len(v["d"][0]) == 3 and v["jd"][0][0] == "f"][:1]
     if not served:
         raise vlib.ToolError("self-test: no served vector found")
     bad = json.loads(json.dumps(served[0]))
     bad["d"][0][1] += 1                                   # expect another file's content
+    bad["jd"][0][1] += 1
     s = replay_vectors(ctx, binpath, scratch, header, [bad], "self-test")
     ctx.add_part("self-test corrupted vector", mismatches=s["mismatches"], handler_calls=s["evaluations"])
     if s["mismatches"] == 0:
@@ -321,7 +336,8 @@ def _run(ctx, thorough, binpath, tokio_bin, scratch, replay):
             text += p2.stdout
             ctx.add_part("end to end (real App on loopback)", answers=len(e2e), served_or_redirected=sum(1 for r in e2e if r["st"] in (200, 301)),
                          late_reader=[{"uri": bytes(r["uri"]).decode("utf-8", "replace"), "late_ms": r["late_ms"], "status": r["st"], "content_id": r["id"]}
-                                      for r in e2e if r.get("late_ms")], no_complete_answer=sum(1 for r in e2e if r["st"] == 0))
+                                      for r in e2e if r.get("late_ms")], no_complete_answer=sum(1 for r in e2e if r["st"] == 0),
+                         note="growth: gates only on bytes from outside the root; everything else is a drift note")
             rs = rs + e2e
         with open(tpath, "w") as f:
             f.write(text)
@@ -331,8 +347,16 @@ def _run(ctx, thorough, binpath, tokio_bin, scratch, replay):
         ctx.cov["evaluations"] += len(rs)
         ctx.cov["traces_validated_against_impl"] += len(rs)
         ctx.add_part("random " + which, worlds=nw, answers=len(rs), served_or_redirected=sum(1 for r in rs if r["st"] in (200, 301)),
-                     canary_or_panic=sum(1 for r in rs if r["canary"]),
+                     canary_or_panic=sum(1 for r in rs if r["canary"] or r["panic"]),
                      by_handler={h: sum(1 for r in rs if r["h"] == h) for h in sorted(set(r["h"] for r in rs))})
+        drift_ix = [x["drift"] for x in t.prints if isinstance(x, dict) and "drift" in x]
+        ctx.cov["parts"]["random " + which]["strict_reading_drifts"] = len(drift_ix)
+        if drift_ix:
+            ex = [dict(rs[i - 1], uri_text=bytes(rs[i - 1]["uri"]).decode("utf-8", "replace")) for i in sorted(drift_ix)[:10] if 0 < i <= len(rs)]
+            ctx.drift("strict reading of C06 (StaticFs Expect*/Conforms; serve_file; the end-to-end leg)",
+                      "%d recorded answers of the %s handlers meet the statement of the property but differ from the strict reading; first: %s" % (
+                          len(drift_ix), which, json.dumps(ex[0]) if ex else "?"),
+                      {"kind": "staticfs-drift-trace", "runtime": which, "first": ex})
         if t.violation:
             if t.violated_name == "TraceWorldsOk":
                 raise vlib.ToolError("a random world is malformed or the handler model fails on it: %s" % "\n".join(t.trace[:40]))
@@ -369,7 +393,10 @@ def _run(ctx, thorough, binpath, tokio_bin, scratch, replay):
                        "or have an admitted alternative (dot-dot paths resolving inside the root)")
     ctx.cov["exhaustive"] = True
     ctx.assumptions += [
-        "Expect*/Conforms in StaticFs.tla is the reading of the property (DESIGN 5a): strict 200/301/404 for clean paths, any 4xx without file bytes for paths with dot-dot, NUL, malformed escapes",
+        "two-level judging: Demand*/JudgeOk in StaticFs.tla (3e) is the statement of the property and alone decides a violation: no bytes from outside the root; a clean file requested by its "
+        "well-spelled path gets 200, its exact contents and a media type registered for its extension; a clean directory 301 to the slash form; with the slash index.html, else index.htm, else 404",
+        "Expect*/Conforms is the strict reading (today's choices: 404 for everything not served, Location exactly uri/, the table's own MIME strings, OS-like treatment of `.`/empty segments and encoded slashes); "
+        "an answer that meets the statement but not the strict reading is a SPEC-DRIFT note; serve_file and the end-to-end leg gate only on bytes from outside",
         "OsLookup models Linux path resolution for worlds without symbolic links",
         "the harness maps bodies to content ids by exact byte equality; file contents contain every byte value",
         "directory_handler is called with an AppState built from Config::default() with logging off (cache off; in the random runs also with the cache on)",
